@@ -541,7 +541,7 @@ func c11Compositions(N int, f func([]int)) {
 
 func genC11(o *hx.Out, r *hx.Rng, tier string, replay string) error {
 	thorough := tier == "thorough"
-	o.Rule = "kind utest: every pair of multisets over the ordered alphabet {0,1,2,3} with sizes up to the bound (presented in shuffled order) x 3 alternatives, empty samples, random samples with sizes 20-60 on both sides of the 25/50 switches (untied, heavily tied, lightly tied, all equal, shifted); a deterministic sweep over every pooled size N = 18..50 in the tied exact regime (all near-even splits, a subset of the others; big runs, several runs, light ties) and N = 18..36 untied; untied samples with BOTH sizes in 30..50 (per seed one balanced pair 38..50 each, one equal pair 34..50, one unbalanced pair 30..33 vs 47..50 in either order, one free pair; C(n1+n2,n1) > 2^64 for all) with the statistic placed, by random adjacent exchanges, at 8 positions of the null distribution (both extreme tails, both 2.5-4 sigma tails, both 0.1-1.5 sigma shoulders, the centre and its neighbour) x 3 alternatives, and the same distributions through UDist.CDF/PMF at these points, U + 1/2 and the usual end/centre/random points; tied samples with N > 20 separated or almost separated (one-sided p-values down to 1/C(N,n1)); constant samples given by their sizes (n1 and n2 copies of one value, up to 165146+165146 values: must be ErrSamplesEqual); kind udist: every tie vector (composition of N) x every n1 (one-run vectors included: a panic or the degenerate distribution) through UDist.CDF/PMF at every half-integer plus quarter points (PMF rounds down to the grid of half-integers; half-integers of an untied distribution carry no mass), untied UDist for all small n1,n2. kind history: series of calls whose two samples are windows of ONE backing array of the caller (series[:k] vs series[k:] for every k in rising, falling and random order, either window first; x[:4] vs x[2:]; overlapping, nested, identical, disjoint windows; longer series whose adjacent windows fall on both sides of the 50 / 25 switches), the array compared with its original values after every call and every call judged on the original values; kind concurrent: batches of 12 different sample pairs (exact tied / untied, normal approximation tied / untied) run sequentially and then by 8, 12, 16 goroutines at once, GOMAXPROCS 4, 8, 16 in a plain binary and GOMAXPROCS 4, 8 in a binary built with -race (a process that dies counts as a panic of every job): every concurrent outcome equals the sequential one, race detector silent. non-trivial = not an error case; distinct by input"
+	o.Rule = "kind utest: every pair of multisets over the ordered alphabet {0,1,2,3} with sizes up to the bound (presented in shuffled order) x 3 alternatives, empty samples, random samples with sizes 20-60 on both sides of the 25/50 switches (untied, heavily tied, lightly tied, all equal, shifted); a deterministic sweep over every pooled size N = 18..50 in the tied exact regime (all near-even splits, a subset of the others; big runs, several runs, light ties) and N = 18..36 untied; untied samples with BOTH sizes in 30..50 (per seed one balanced pair 38..50 each, one equal pair 34..50, one unbalanced pair 30..33 vs 47..50 in either order, one free pair; C(n1+n2,n1) > 2^64 for all) with the statistic placed, by random adjacent exchanges, at 8 positions of the null distribution (both extreme tails, both 2.5-4 sigma tails, both 0.1-1.5 sigma shoulders, the centre and its neighbour) x 3 alternatives, and the same distributions through UDist.CDF/PMF at these points, U + 1/2 and the usual end/centre/random points; tied samples with N > 20 separated or almost separated (one-sided p-values down to 1/C(N,n1)); constant samples given by their sizes (n1 and n2 copies of one value, up to 165146+165146 values: must be ErrSamplesEqual); kind udist: every tie vector (composition of N) x every n1 (one-run vectors included: a panic or the degenerate distribution) through UDist.CDF/PMF at every half-integer plus quarter points (PMF rounds down to the grid of half-integers; half-integers of an untied distribution carry no mass), untied UDist for all small n1,n2. kind history: series of calls whose two samples are windows of ONE backing array of the caller (series[:k] vs series[k:] for every k in rising, falling and random order, either window first; x[:4] vs x[2:]; overlapping, nested, identical, disjoint windows; longer series whose adjacent windows fall on both sides of the 50 / 25 switches), the array compared with its original values after every call and every call judged on the original values; histories of ONE FRESH PROCESS each (cmd/c11race, one goroutine) mixing sample sizes: exact tests whose binomials C(n,k) need n <= 20, n in 21..31 (11+11 tied, ...), n = 32 (16+16 tied, ...), n in 33..64 (tied up to 25+25, untied) and n in 65..100 (untied), in every order of the three middle classes, with and without a small first call, and in random orders of 3-6 calls, every result judged against the exact tails of its own samples (as if it were the first call of the process); kind concurrent: batches of 12 different sample pairs (exact tied / untied, normal approximation tied / untied) run sequentially and then by 8, 12, 16 goroutines at once, GOMAXPROCS 4, 8, 16 in a plain binary and GOMAXPROCS 4, 8 in a binary built with -race (a process that dies counts as a panic of every job): every concurrent outcome equals the sequential one, race detector silent. non-trivial = not an error case; distinct by input"
 	nmax := 4
 	if thorough {
 		nmax = 5
